@@ -173,17 +173,19 @@ Theorem C17_closed_scalars : forall e fl,
 Proof. exact expand_closed_scalars. Qed.
 Print Assumptions C17_closed_scalars.
 
-(* fields_ok: no user-declared field is both optional and required/primary (buildProperty);
+(* trees_ok: the references inside tree-form inline schemas (inline schemas nested in inline schemas) resolve;
+   fields_ok: no user-declared field is both optional and required/primary (buildProperty);
    *_params_ok: every ":name" part of a method path is a request field (visitServiceMethodNode) *)
 Example C17_compile_is_expand : forall e,
   list_settings e = false ->
   (forall fl, user_refs_ok e (defined (expand_with e fl)) = true) ->
+  (forall fl, trees_ok e (defined (expand_with e fl)) = true) ->
   fields_ok e = true -> query_params_ok e = true -> command_params_ok e = true -> convert e = expand e.
 Proof. exact compile_expand. Qed.
 Print Assumptions C17_compile_is_expand.
 
 Example C17_compile_errors : forall e cs, expand e = Ok cs -> list_settings e = false ->
-  convert e = if user_refs_ok e (defined cs) then
+  convert e = if user_refs_ok e (defined cs) && trees_ok e (defined cs) then
                 if fields_ok e then
                   if query_params_ok e && command_params_ok e then Ok cs
                   else Err "missing field in request"
